@@ -31,6 +31,14 @@ type VerifTarget struct {
 	Base          string // base URI of the resource enclosing the referring schema
 }
 
+// dynInitial is the lexical (initial) target of a $dynamicRef, whichever way it behaves.
+func dynInitial(info *resolvedInfo) *Schema {
+	if info.resolvedDynamicRef != nil {
+		return info.resolvedDynamicRef
+	}
+	return info.dynamicRefFallback
+}
+
 // VerifTargets lists, for every schema known to rs that has a $ref or $dynamicRef, what Resolve recorded.
 func VerifTargets(rs *Resolved) []VerifTarget {
 	var out []VerifTarget
@@ -66,8 +74,8 @@ func VerifTargets(rs *Resolved) []VerifTarget {
 			Base:          baseOf(s),
 			RefPath:       pathOf(info.resolvedRef),
 			RefBase:       baseOf(info.resolvedRef),
-			DynRefPath:    pathOf(info.resolvedDynamicRef),
-			DynRefBase:    baseOf(info.resolvedDynamicRef),
+			DynRefPath:    pathOf(dynInitial(info)),
+			DynRefBase:    baseOf(dynInitial(info)),
 			DynamicAnchor: info.dynamicRefAnchor,
 		})
 	}
